@@ -604,8 +604,21 @@ def benjamini_m_adj(mods: dict[str, ast.Module]) -> str:
             f"  {{ alpha := alpha, m_adj_ := if arbitrary_dependence = true then (m : {A}) * harmonic m else (m : {A}) }}\n")
 
 
-def generate(src: Path) -> dict[str, str]:
-    """Return {module name: lean source} or raise Unsupported."""
+def generate(src: Path, refused: dict[str, str] | None = None) -> dict[str, str]:
+    """Return {module name: lean source}.  A construct outside the supported fragment raises Unsupported — or, when a
+    dict `refused` is passed, is recorded there per generated module ({module: reason}) and that module is left out
+    (the caller falls back to the snapshot for it and reports the tie of the properties that depend on it as broken)."""
+    def attempt(mod, fn):
+        if refused is None:
+            return fn()
+        if mod in refused:
+            return None
+        try:
+            return fn()
+        except Unsupported as ex:
+            refused[mod] = str(ex)
+            return None
+
     mods = {m: ast.parse((src / f).read_text()) for m, f in MODULE_SOURCE.items()}
     out: dict[str, list[str]] = {}
     guards: dict[str, list[str]] = {}
@@ -615,32 +628,48 @@ def generate(src: Path) -> dict[str, str]:
                             and isinstance(n.value, ast.Constant) and isinstance(n.value.value, int)
                             and not isinstance(n.value.value, bool)}
     for key, sig in SIGS.items():
-        fn = find(mods, sig.get("py", key))
-        tr = Tr(key, sig, fn)
-        text = f"-- {sig.get('py', key)}  (line {fn.lineno})\n" + tr.render()
+        def one(key=key, sig=sig):
+            fn = find(mods, sig.get("py", key))
+            tr = Tr(key, sig, fn)
+            text = f"-- {sig.get('py', key)}  (line {fn.lineno})\n" + tr.render()
+            return text, tr.guards
+        r = attempt(sig["mod"], one)
+        if r is None:
+            continue
+        text, g = r
         out.setdefault(sig["mod"], []).append(text)
         if key == "aggr.Aggregates.__add__":   # Python dispatches `a + b` on Aggregates to __add__
             out[sig["mod"]].append(f"instance : Add (Aggr {A}) := ⟨Aggr.add⟩\n")
-        if tr.guards:
-            guards[key] = tr.guards
-    exp_fn = find(mods, "mean._exp")
-    if "\n".join(ast.unparse(x) for x in exp_fn.body) != (
-            "try:\n    return math.exp(x)\nexcept OverflowError:\n    return float('inf')"):
-        raise Unsupported("mean._exp is not `math.exp saturating to inf`")
-    out["Mean"].append(mean_ctor_map(mods))
-    out["Multiplicity"].append(benjamini_m_adj(mods))
+        if g:
+            guards[key] = g
+
+    def mean_extras():
+        exp_fn = find(mods, "mean._exp")
+        if "\n".join(ast.unparse(x) for x in exp_fn.body) != (
+                "try:\n    return math.exp(x)\nexcept OverflowError:\n    return float('inf')"):
+            raise Unsupported("mean._exp is not `math.exp saturating to inf`")
+        return mean_ctor_map(mods)
+    r = attempt("Mean", mean_extras)
+    if r is not None:
+        out["Mean"].append(r)
+    r = attempt("Multiplicity", lambda: benjamini_m_adj(mods))
+    if r is not None:
+        out["Multiplicity"].append(r)
     files = {}
     for mod, parts in out.items():
+        if refused is not None and mod in refused:
+            continue
         hdr = ("-- GENERATED by harness/translate.py from /repo/src/tea_tasting — do not edit.\n"
                + MODULE_HEADER[mod] + "\n"
                + f"variable {{{A} : Type}} [Field {A}] [LinearOrder {A}] [IsStrictOrderedRing {A}]\n\n"
                + "namespace Gen\n\n")
         gl = "".join(f"-- guard {k}: {g}\n" for k, gs in guards.items() if SIGS[k]["mod"] == mod for g in gs)
         files[mod] = hdr + "\n".join(parts) + "\n" + gl + "end Gen\n"
-    files["Utils"] = generate_utils(src)
-    files["Config"] = generate_config(src)
-    files["Solve"] = generate_solve(src)
-    files["Safe"] = generate_safe(src)
+    for mod, fn in (("Utils", generate_utils), ("Config", generate_config), ("Solve", generate_solve),
+                    ("Safe", generate_safe)):
+        r = attempt(mod, lambda fn=fn: fn(src))
+        if r is not None:
+            files[mod] = r
     return files
 
 
